@@ -873,6 +873,7 @@ let node_case (line : string) : string =
            t.l <- r; List.nth !pids (int_of_string (String.sub tok 1 (String.length tok - 1)))
        | _ -> pid_of_term (rd_term cmp_owned t)) in
     let okerr = function UOk -> "ok" | _ -> "err" in
+    let remote_pid : pidr = { pnode = List.map (fun c -> n_of_int (Char.code c)) (List.init 16 (String.get "p00000@127.0.0.1")); pnum = n_of_int 9; pserial = N0; pcreation = n_of_int 1; ploc = None } in
     let frame_to (p : pidr) (body : term) : n list option =
       (match frame_body N0 [] (SSend (p, body)) with Some b -> Some b | None -> None) in
     let outs = List.map (fun step ->
@@ -891,6 +892,16 @@ let node_case (line : string) : string =
       | "demonitor" -> let a = pid_arg t in let b = pid_arg t in
           let k = (let s = next t in int_of_string (String.sub s 1 (String.length s - 1))) in
           okerr (do_op (ODemonitor (a, b, List.nth !refs k)))
+      | "rsend" -> let msg = rd_term cmp_owned t in okerr (do_op (ORemote (SSend (remote_pid, msg))))
+      | "rlink" -> let a = pid_arg t in okerr (do_op (ORemote (SLink (a, remote_pid))))
+      | "runlink" -> let a = pid_arg t in okerr (do_op (ORemoteUnlink (a, remote_pid)))
+      | "rmonitor" -> let a = pid_arg t in
+          (match do_op (ORemoteMonitor (a, remote_pid)) with
+           | URef r -> refs := !refs @ [r]; "ref " ^ term_str r
+           | _ -> refs := !refs @ [TNil]; "err")
+      | "rdemonitor" -> let a = pid_arg t in
+          let k = (let s = next t in int_of_string (String.sub s 1 (String.length s - 1))) in
+          okerr (do_op (ORemote (SDemonitor (a, remote_pid, List.nth !refs k))))
       | "rpc" ->
           let variant = next t in
           let short = variant = "S" in
